@@ -99,6 +99,16 @@ Theorem C02_tree_depends_on_tokens_only_say :
   same_parse (parse prof src) (parse prof src').
 Proof. exact parse_layout_invariant_say. Qed.
 
+(** and for sources with neither `says` nor a `say` in the middle of a line, nothing but the tokens matters *)
+Theorem C02_same_tokens_same_tree :
+  forall prof src src' pts pts',
+  lex prof src = Ok pts -> lex prof src' = Ok pts' ->
+  Forall2 (fun pt pt' => tsim (pt_tok pt) (pt_tok pt')) (drop_comments pts) (drop_comments pts') ->
+  Forall (fun pt => tid (pt_tok pt) <> TSays) (drop_comments pts) ->
+  say_starts_lines true (drop_comments pts) = true ->
+  same_parse (parse prof src) (parse prof src').
+Proof. exact parse_layout_invariant_plain. Qed.
+
 Theorem C02_token_relation_reflexive : forall b l, tksim b b l l.
 Proof. exact tksim_refl. Qed.
 
